@@ -32,11 +32,11 @@ def run_script(impl, cfg, script, nslots, seed=0, preempt=False):
             w.out = []
             a = {x: op[x] for x in op if x != 'op'}
             if k == 'open':
-                w.connect_plan.append((op.get('outcome', 'accept'), op.get('hsend', False)))
+                w.connect_plan = [(op.get('outcome', 'accept'), op.get('hsend', False))]
                 w.http('GET', 'transport=polling&EIO=4')
                 a = {'outcome': op.get('outcome', 'accept'), 'hsend': op.get('hsend', False)}
             elif k == 'openws':
-                w.connect_plan.append((op.get('outcome', 'accept'), op.get('hsend', False)))
+                w.connect_plan = [(op.get('outcome', 'accept'), op.get('hsend', False))]
                 w.ws_request('transport=websocket&EIO=4')
                 a = {'outcome': op.get('outcome', 'accept'), 'hsend': op.get('hsend', False)}
             elif k == 'poll':
@@ -94,6 +94,11 @@ def encode_body(toks, max_buf):
         return b'\xff\xfe\xfd', None
     if toks == ['OVERSIZE']:
         return b'4' + b'x' * max_buf, None
+    if toks == ['EMPTYBODY']:
+        return b'', None
+    if len(toks) == 1 and toks[0].startswith('TOOMANY'):
+        k = int(toks[0][7:])
+        return '\x1e'.join('4' + W.cli_payload('m%d' % (3 * j + 1)) for j in range(k)).encode(), None
     parts = [W.encode_cli_packet(t, 'polling') for t in toks]
     return '\x1e'.join(parts).encode('utf-8'), None
 
